@@ -24,7 +24,11 @@ def pad_amount(fs, f_range, filter_kwargs, pad=True):
     fk = dict(filter_kwargs or {})
     ns = fk.get('n_seconds')
     nc = fk.get('n_cycles', None if ns is not None else 3)
-    fl = compute_filter_length(fs, 'bandpass', f_range[0], f_range[1], n_cycles=nc, n_seconds=ns)
+    try:
+        fl = compute_filter_length(fs, 'bandpass', f_range[0], f_range[1], n_cycles=nc, n_seconds=ns)
+    except Exception as exc:  # noqa
+        from harness import Discard
+        raise Discard('trusted neurodsp filter length raises %s' % type(exc).__name__)
     return int(math.ceil(fl / 2))
 
 
@@ -40,7 +44,11 @@ def halfwaves(sig, fs, f_range, filter_kwargs=None, pad=True):
     x = np.asarray(sig, dtype=float)
     if off:
         x = np.concatenate([np.zeros(off), x, np.zeros(off)])
-    filt = filter_signal(x, fs, 'bandpass', f_range, remove_edges=False, **fk)
+    try:
+        filt = filter_signal(x, fs, 'bandpass', f_range, remove_edges=False, **fk)
+    except Exception as exc:  # noqa - the trusted filter design rejects this band / length: outside every property's domain
+        from harness import Discard
+        raise Discard('trusted neurodsp filter design raises %s for this band/filter length' % type(exc).__name__)
     pos = filt > 0
     runs, i = [], 0
     for val, grp in itertools.groupby(pos.tolist()):
@@ -308,6 +316,14 @@ def ref_burst_mask(sig, fs, f_range, amp_threshes=(1, 2), min_n_cycles=3, min_bu
 
 
 def ref_band_amp(sig, fs, f_range):
+    try:
+        return _ref_band_amp(sig, fs, f_range)
+    except Exception as exc:  # noqa
+        from harness import Discard
+        raise Discard('trusted neurodsp amp_by_time raises %s' % type(exc).__name__)
+
+
+def _ref_band_amp(sig, fs, f_range):
     return amp_by_time(np.asarray(sig, dtype=float), fs, tuple(f_range), remove_edges=False, n_cycles=3)
 
 
